@@ -111,7 +111,7 @@ func isLenWhere(v ssa.Value, of func(ssa.Value) bool) bool {
 
 // nonEmptyGuard: at block b it is known that len(x) != 0 for some x satisfying of.
 func nonEmptyGuard(b *ssa.BasicBlock, of func(ssa.Value) bool) bool {
-	for _, g := range guardsAt(b) {
+	for _, g := range guardsAtDeep(b) {
 		if isLoopHeader(g.If.Block()) {
 			continue
 		}
@@ -263,7 +263,7 @@ func derivesThroughCalls(v ssa.Value, pred func(ssa.Value) bool) bool {
 }
 
 func emptyGuard(b *ssa.BasicBlock, of func(ssa.Value) bool) bool {
-	for _, g := range guardsAt(b) {
+	for _, g := range guardsAtDeep(b) {
 		bo, isB := g.Cond.(*ssa.BinOp)
 		if !isB {
 			continue
@@ -309,15 +309,20 @@ func ruleIndentState(c *Ctx) []Obligation {
 	con := fmt.Sprintf("%s: whether the chunk starts with a prefix is decided by the partial-line flag", c.FnName(m.write))
 	decided := false
 	var at ssa.Instruction
-	for _, b := range m.write.Blocks {
-		ifi, isIf := b.Instrs[len(b.Instrs)-1].(*ssa.If)
-		if !isIf {
-			continue
-		}
-		if derivesFrom(ifi.Cond, func(x ssa.Value) bool { _, f, _ := loadedField(x); return f == m.fPartial }) {
-			if blockReaches(b, m.under.Block(), nil) {
-				decided = true
-				at = ifi
+	fns := append([]*ssa.Function{m.write}, c.helpersUnder(m.write)...)
+	for _, fn := range fns {
+		for _, b := range fn.Blocks {
+			ifi, isIf := b.Instrs[len(b.Instrs)-1].(*ssa.If)
+			if !isIf {
+				continue
+			}
+			if derivesFrom(ifi.Cond, func(x ssa.Value) bool { _, f, _ := loadedField(x); return f == m.fPartial }) {
+				for _, l := range liftAll(ifi, m.write, 0) {
+					if blockReaches(l.Block(), m.under.Block(), nil) {
+						decided = true
+						at = ifi
+					}
+				}
 			}
 		}
 	}
@@ -331,7 +336,7 @@ func ruleIndentState(c *Ctx) []Obligation {
 		return derivesThroughCalls(v, func(x ssa.Value) bool { return isParamN(m.write, x, 1) })
 	}
 	n := 0
-	for _, st := range storesToField(m.write, m.fPartial) {
+	for _, st := range c.storesToFieldDeep(m.write, m.fPartial) {
 		n++
 		con := fmt.Sprintf("%s: the partial-line flag is written only for a non-empty argument", c.FnName(m.write))
 		if n > 1 {
@@ -652,7 +657,19 @@ func (c *Ctx) renderShapeOf(fn *ssa.Function, isText, isPrefix func(ssa.Value) b
 				continue
 			}
 			jj := j
-			sub := c.renderShapeOf(g, func(v ssa.Value) bool { return isParamN(g, v, jj) }, func(ssa.Value) bool { return false })
+			// the prefix inside the helper: the same field, or the parameter that receives the caller's prefix
+			subPrefix := func(v ssa.Value) bool {
+				if isPrefix(v) {
+					return true
+				}
+				for k, a2 := range call.Call.Args {
+					if k < len(g.Params) && isParamN(g, v, k) && derivesFrom(a2, isPrefix) {
+						return true
+					}
+				}
+				return false
+			}
+			sub := c.renderShapeOf(g, func(v ssa.Value) bool { return isParamN(g, v, jj) }, subPrefix)
 			if sub.split {
 				sh.split = true
 				sh.pos["split"] = sub.pos["split"]
@@ -660,6 +677,13 @@ func (c *Ctx) renderShapeOf(fn *ssa.Function, isText, isPrefix func(ssa.Value) b
 			if sub.dropTrailing {
 				sh.dropTrailing = true
 				sh.pos["drop"] = sub.pos["drop"]
+			}
+			if sub.join {
+				sh.join = true
+				sh.pos["join"] = sub.pos["join"]
+			}
+			if sub.lead {
+				sh.lead = true
 			}
 		}
 	})
